@@ -189,3 +189,42 @@ pub fn c13__div_cubic_by_linear() {
     kani::cover!(q[1] == F17::ZERO && q[0] != F17::ZERO, "VERIF-COVER a zero coefficient inside the quotient");
     core::mem::forget(q);
 }
+
+//@ harness=c13__syn_div_roots_any tier=quick kind=prove cap=1200 :: syn_div_roots_in_place(p, [r0, r1]) with p = q * (x - r0)(x - r1) for EVERY pair of roots (zero and repeated roots included) and every q of 2 coefficients: the slice holds q followed by zeros
+#[kani::proof]
+#[kani::unwind(8)]
+#[kani::stub(alloc::fmt::format, no_fmt)]
+pub fn c13__syn_div_roots_any() {
+    let r: [F17; 2] = kani::any();
+    let q: [F17; 2] = kani::any();
+    let c0 = r[0] * r[1];
+    let c1 = -(r[0] + r[1]);
+    let mut p = [q[0] * c0, q[0] * c1 + q[1] * c0, q[0] + q[1] * c1, q[1]];
+    polynom::syn_div_roots_in_place(&mut p, &r);
+    assert!(p[0] == q[0] && p[1] == q[1] && p[2] == F17::ZERO && p[3] == F17::ZERO);
+    kani::cover!(r[0] == r[1] && r[0] != F17::ZERO && q[1] != F17::ZERO, "VERIF-COVER repeated root");
+    kani::cover!(r[0] == F17::ZERO && r[1] != F17::ZERO, "VERIF-COVER zero root");
+}
+
+//@ harness=c13__div_padded_divisor tier=quick kind=prove cap=1200 :: div(a, b) with a non-monic linear divisor stored with a leading-zero pad, b = [b0, b1, 0], b1 != 0, and every 4-coefficient dividend of degree >= 1 (padded ones included): a == q*b + r coefficient-wise with a constant r, and q has degree_of(a) coefficients
+#[kani::proof]
+#[kani::unwind(8)]
+#[kani::stub(alloc::fmt::format, no_fmt)]
+pub fn c13__div_padded_divisor() {
+    let a: [F17; 4] = kani::any();
+    let b0: F17 = kani::any();
+    let b1: F17 = kani::any();
+    kani::assume(b1 != F17::ZERO);
+    // documented precondition: the dividend's degree is at least the divisor's (1)
+    kani::assume(a[1] != F17::ZERO || a[2] != F17::ZERO || a[3] != F17::ZERO);
+    let q = polynom::div(&a, &[b0, b1, F17::ZERO]);
+    let da = if a[3] != F17::ZERO { 3 } else if a[2] != F17::ZERO { 2 } else { 1 };
+    assert!(q.len() == da);
+    let g = |i: usize| if i < q.len() { q[i] } else { F17::ZERO };
+    assert!(a[3] == g(2) * b1);
+    assert!(a[2] == g(2) * b0 + g(1) * b1);
+    assert!(a[1] == g(1) * b0 + g(0) * b1);
+    kani::cover!(da == 2 && b0 != F17::ZERO, "VERIF-COVER padded dividend");
+    kani::cover!(da == 3, "VERIF-COVER full dividend");
+    core::mem::forget(q);
+}
